@@ -7,6 +7,7 @@ import (
 	"os"
 	"os/exec"
 	"path/filepath"
+	"runtime"
 	"strings"
 	"sync"
 	"sync/atomic"
@@ -902,7 +903,7 @@ func init() {
 		Level:       "exploration",
 		Race:        true,
 		Technique:   "runtime protocol monitor under the race detector: gate evaluator parks the search so that a superseded search provably has not ended, hook-point delays widen the hand-over windows between command loop, forwarder, timers and search; hostile and malformed command scripts; real binaries driven over pipes; goroutine-dump based leak and hang diagnosis",
-		Rule:        "stale: go on P1 parked inside its k-th evaluation, then isready / stop / position P2 / ucinewgame / position P2 + go (P1, P2 have opposite sides to move): every isready answered while searching, a superseded search never answered, position+go answered exactly once with a move of P2; flood: go infinite on a finished game (mate / stalemate on the board) with a prompt or lagging reader, then isready / stop / isready; hostile: 8-37 random commands from {isready, position, go (6 forms), stop, ucinewgame, setoption, 54 malformed or unknown lines incl. over-long, non-UTF8, multi-byte move tokens, missing/overflowing arguments} with random pauses, then the driver must still answer position startpos / go depth 1 exactly once, then quit or end of input (also in the middle of a search): output closes; afterwards no goroutine remains inside morlock code; hook policies none / yield / random sleeps / long sleeps at hand-over points; blackbox: the four binaries (race build) driven over pipes: uciok, readyok, one legal bestmove per go, exit 0 without panic or race report; distinct = distinct session transcripts; interleaving signatures = distinct rolling hashes of hook-point order",
+		Rule:        "stale: go on P1 parked inside its k-th evaluation, then isready / stop / position P2 / ucinewgame / position P2 + go (P1, P2 have opposite sides to move): every isready answered while searching, a superseded search never answered, position+go answered exactly once with a move of P2; flood: go infinite on a finished game (mate / stalemate on the board) with a prompt or lagging reader, then isready / stop / isready; hostile: 8-37 random commands from {isready, position, go (6 forms), stop, ucinewgame, setoption, 54 malformed or unknown lines incl. over-long, non-UTF8, multi-byte move tokens, missing/overflowing arguments} with random pauses, then the driver must still answer position startpos / go depth 1 exactly once, then quit or end of input (also in the middle of a search): output closes; afterwards no goroutine remains inside morlock code; hook policies none / yield / random sleeps / long sleeps at hand-over points; every fifth in-process case with GOMAXPROCS(1); blackbox: the four binaries (race build) driven over pipes: uciok, readyok, one legal bestmove per go, exit 0 without panic or race report; distinct = distinct session transcripts; interleaving signatures = distinct rolling hashes of hook-point order",
 		Assumptions: []string{"an unanswered isready is reported after a 60 s watchdog together with a goroutine dump (operations take milliseconds)", "a gate is never held across Halt: the iter.halt.enter hook releases it"},
 		Setup:       validateOracle,
 		Timeout:     minutes(15, 120),
@@ -916,10 +917,15 @@ func init() {
 			return l
 		},
 		Floors: func(string) map[string]int64 {
-			return map[string]int64{"stale_sessions": 100, "stale_parked": 150, "hostile_sessions": 150, "isready_answered": 300, "final_go_checks": 100, "quit_during_search": 20, "leak_checks": 30, "timer_overlap_scenarios": 5, "late_answer_probes": 150, "held_forwarder_probes": 40, "stalled_reader_scenarios": 10, "timer_pileup_scenarios": 8, "answered_before_supersession": 20, "blackbox_sessions": 25, "blackbox_gos": 40, "hook_points_seen": 8, "flood_rounds": 30}
+			return map[string]int64{"stale_sessions": 100, "stale_parked": 150, "hostile_sessions": 150, "isready_answered": 300, "final_go_checks": 100, "quit_during_search": 20, "leak_checks": 30, "timer_overlap_scenarios": 5, "late_answer_probes": 150, "held_forwarder_probes": 40, "stalled_reader_scenarios": 10, "timer_pileup_scenarios": 8, "answered_before_supersession": 20, "blackbox_sessions": 25, "blackbox_gos": 40, "hook_points_seen": 8, "flood_rounds": 30, "single_cpu_cases": 10}
 		},
 		Run: func(c *fw.Ctx, cs fw.Case) {
 			r := cs.Rand()
+			if cs.Kind != "blackbox" && cs.Idx%5 == 4 {
+				// every fifth case on a single processor (a one-CPU container): goroutines run only when others block
+				defer runtime.GOMAXPROCS(runtime.GOMAXPROCS(1))
+				c.Count("single_cpu_cases", 1)
+			}
 			switch cs.Kind {
 			case "stale":
 				defer installDriverHooks(cs.Seed, cs.Idx%4)()
